@@ -2,7 +2,6 @@ import B6.Gen.Bits
 import B6.Model.Bits
 import B6.Lemmas.Varint
 import B6.Lemmas.Bits
-import Std.Tactic.BVDecide
 /-!
 # C10 — Bit-packed identifiers decode to what was packed
 
@@ -12,9 +11,8 @@ ties the hand-written `B6.Model.Bits` (executed by the driver against the real G
 generated text.  The string packings (postcodes, ONS codes) are loops over strings: hand-modelled
 (`B6.Model.Bits`), proved here kernel-only, tied by T1, and their constants tied by `gen_constants`.
 
-Axioms: `zigzag64*`, `postcode_roundtrip`, `ons_roundtrip`, `builder_layouts_ok`, `gen_*` are kernel-only
-(propext / Classical.choice / Quot.sound).  The other packing theorems use `bv_decide` (symbolic shift
-amounts, 64-bit words), which adds one `…._native.bv_decide.ax_*` axiom each (DESIGN §3).
+Axioms: every theorem here is kernel-only (propext / Classical.choice / Quot.sound); the 64-bit packings are
+proved on `toNat` with `omega` and the disjoint-or / mask lemmas of `B6/Lemmas/Bits.lean`. No `bv_decide`.
 -/
 namespace B6.Props.C10
 open B6.Model.Bits B6.Model.Varint
@@ -76,8 +74,7 @@ theorem zigzag64_old_counterexample :
 /-- renderer: `zigzagDecode(zigzagEncode(x)) = x` for every `int` that is an `int32` (the encoder truncates). -/
 theorem zigzag32 (x : BitVec 32) :
     B6.Gen.Bits.rendererZigzagDecode (B6.Gen.Bits.rendererZigzagEncode (x.signExtend 64)) = x.signExtend 64 := by
-  unfold B6.Gen.Bits.rendererZigzagDecode B6.Gen.Bits.rendererZigzagEncode
-  bv_decide
+  exact B6.Lemmas.Bits.renderer_zigzag32 x
 
 example : B6.Gen.Bits.rendererZigzagDecode (B6.Gen.Bits.rendererZigzagEncode ((0x80000000#32).signExtend 64))
     = (0x80000000#32).signExtend 64 := by decide
@@ -91,8 +88,7 @@ theorem zigzag32_old_counterexample :
 the invalid/collection/expression markers) and every namespace index below 2^13. -/
 theorem type_ns (t : BitVec 64) (ns : BitVec 16) (ht : t < 8#64) (hns : ns < 8192#16) :
     TypeAndNamespace_Split (CombineTypeAndNamespace t ns) = (t, ns) := by
-  unfold TypeAndNamespace_Split CombineTypeAndNamespace
-  ext1 <;> simp only <;> bv_decide
+  exact B6.Lemmas.Bits.type_ns t ns ht hns
 
 example : TypeAndNamespace_Split (CombineTypeAndNamespace 3#64 8191#16) = (3#64, 8191#16) := by decide
 
@@ -105,24 +101,12 @@ theorem type_ns_domain_is_needed :
 /-- for `v < 2^62` and a 2-bit type, `EncodeValueType` does not panic and both parts read back. -/
 theorem value_type (t v : BitVec 64) (ht : t < 4#64) (hv : v < 0x4000000000000000#64) :
     ∃ e, EncodeValueType t v = some e ∧ DecodeValue_value e = v ∧ decodeValueType e = t := by
-  refine ⟨(v <<< 2) ||| t, ?_, ?_, ?_⟩
-  · have h : (((v <<< 2) >>> 2) != v) = false := by bv_decide
-    simp [EncodeValueType, h]
-  · unfold DecodeValue_value; bv_decide
-  · unfold decodeValueType; bv_decide
+  exact B6.Lemmas.Bits.value_type t v ht hv
 
 /-- the guard is exact: `EncodeValueType` panics precisely when `v ≥ 2^62` (so nothing is silently lost). -/
 theorem value_type_guard (t v : BitVec 64) :
     EncodeValueType t v = none ↔ ¬ v < 0x4000000000000000#64 := by
-  unfold EncodeValueType
-  constructor
-  · intro h
-    split at h
-    · rename_i hc; bv_decide
-    · simp at h
-  · intro h
-    have hc : (((v <<< 2) >>> 2) != v) = true := by bv_decide
-    simp [hc]
+  exact B6.Lemmas.Bits.value_type_guard t v
 
 example : EncodeValueType 3#64 0x3fffffffffffffff#64 = some 0xffffffffffffffff#64 := by decide
 
@@ -131,20 +115,7 @@ example : EncodeValueType 3#64 0x3fffffffffffffff#64 = some 0xffffffffffffffff#6
 /-- all three encodings: the length (below 2^62; 2^63 for references) and the encoding read back. -/
 theorem geometry_len (e : BitVec 8) (l : BitVec 64) (he : e < 3#8) (hl : l < 0x4000000000000000#64) :
     ∃ v, EncodeGeometry e l = some v ∧ DecodeGeometryLen v = l ∧ DecodeGeometryEncoding v = e := by
-  unfold EncodeGeometry DecodeGeometryLen DecodeGeometryEncoding
-  have h3 : e = 0#8 ∨ e = 1#8 ∨ e = 2#8 := by bv_decide
-  rcases h3 with h | h | h <;> subst h
-  · have f : ((l <<< 1 &&& 1#64) == 0#64) = true ∧ (l <<< 1) >>> 1 = l := by
-      constructor <;> bv_decide
-    exact ⟨l <<< 1, by simp, by simp only [f.1, if_true]; exact f.2, by simp [f.1]⟩
-  · have f : (((l <<< 2 ||| 1#64) &&& 1#64) == 0#64) = false ∧ (((l <<< 2 ||| 1#64) &&& 2#64) == 0#64) = true ∧
-        (l <<< 2 ||| 1#64) >>> 2 = l := by
-      refine ⟨?_, ?_, ?_⟩ <;> bv_decide
-    exact ⟨(l <<< 2) ||| 1#64, by simp, by simp only [f.1]; exact f.2.2, by simp [f.1, f.2.1]⟩
-  · have f : (((l <<< 2 ||| 3#64) &&& 1#64) == 0#64) = false ∧ (((l <<< 2 ||| 3#64) &&& 2#64) == 0#64) = false ∧
-        (l <<< 2 ||| 3#64) >>> 2 = l := by
-      refine ⟨?_, ?_, ?_⟩ <;> bv_decide
-    exact ⟨(l <<< 2) ||| 3#64, by simp, by simp only [f.1]; exact f.2.2, by simp [f.1, f.2.1]⟩
+  exact B6.Lemmas.Bits.geometry_len e l he hl
 
 example : ∃ v, EncodeGeometry 2#8 5#64 = some v ∧ DecodeGeometryLen v = 5#64 ∧ DecodeGeometryEncoding v = 2#8 :=
   ⟨23#64, by decide⟩
@@ -156,8 +127,7 @@ tag below `2^TagBits`, unmarshalling the marshalled word in the id's bucket give
 theorem header_roundtrip (id tag b t : BitVec 64) (hb : b ≤ 63#64) (htb : t ≤ b) (htag : tag < (1#64 <<< t)) :
     Header_Unmarshal_ID (BucketForID id b) (Header_Marshal_idAndTag b t id tag) b t = id ∧
     Header_Unmarshal_Tag (Header_Marshal_idAndTag b t id tag) t = tag := by
-  unfold Header_Unmarshal_ID BucketForID Header_Marshal_idAndTag Header_Unmarshal_Tag
-  bv_decide (config := { timeout := 900 })
+  exact B6.Lemmas.Bits.header_roundtrip id tag b t hb htb htag
 
 example : Header_Unmarshal_ID (BucketForID 0x8000000000000005#64 2#64)
     (Header_Marshal_idAndTag 2#64 2#64 0x8000000000000005#64 3#64) 2#64 2#64 = 0x8000000000000005#64 := by decide
@@ -168,8 +138,7 @@ theorem header_roundtrip_small_id (id tag b t : BitVec 64) (ht : t ≤ 63#64) (h
     (hid : id < (1#64 <<< (64#64 - (t - b)))) (htag : tag < (1#64 <<< t)) :
     Header_Unmarshal_ID (BucketForID id b) (Header_Marshal_idAndTag b t id tag) b t = id ∧
     Header_Unmarshal_Tag (Header_Marshal_idAndTag b t id tag) t = tag := by
-  unfold Header_Unmarshal_ID BucketForID Header_Marshal_idAndTag Header_Unmarshal_Tag
-  bv_decide (config := { timeout := 900 })
+  exact B6.Lemmas.Bits.header_roundtrip_small_id id tag b t ht hbt hid htag
 
 /-- the layout the unrepaired builder created for point blocks with ≤ 2 points (BucketBits 1, TagBits 2)
 loses the top bit of the id — the defect of DESIGN §7. -/
@@ -207,6 +176,42 @@ theorem builder_layouts_ok (b t : BitVec 64) (hb : b ≤ 63#64) (ht : t ≤ 63#6
 /-- the tag-bit table of the index builder (ingest/compact/build.go) stays within 0..63. -/
 theorem builder_tag_bits_ok : ∀ e ∈ B6.Gen.Bits.tagBits, e.2 ≤ 63 := by decide
 
+/-- the model of `bucketBitsForCount`: the smallest `b ≥ 1` with `2^b ≥ count` (tied to the float code by the
+exhaustive sweep of all counts < 2^24 (quick) / 2^28 (thorough) and sampled counts next to every power of two). -/
+theorem bucket_bits_spec (n : Nat) :
+    1 ≤ bucketBitsForCount n ∧ n ≤ 2 ^ bucketBitsForCount n ∧
+    ∀ b, 1 ≤ b → n ≤ 2 ^ b → bucketBitsForCount n ≤ b :=
+  B6.Lemmas.Bits.bucketBitsForCount_spec n
+
+/-- **every count**: for every feature count `n ≤ 2^62` and every feature type of the `tagBits` table, the
+layout the index builder creates — `NewUint64MapBuilder(g, tagBits[type])` where `g` is the model value or,
+as measured for the floating-point code next to powers of two ≥ 2^29, one off it — is inside the domain
+of `header_roundtrip` and keeps the table's tag bits. (Counts above 2^62 would need more than 2^62 buckets.) -/
+theorem builder_layouts_ok_all_counts (n g ty tb : Nat) (hn : n ≤ 2 ^ 62)
+    (hg : bucketBitsClose n g = true) (hty : (ty, tb) ∈ B6.Gen.Bits.tagBits) :
+    layoutOK (NewUint64MapBuilder_Layout (BitVec.ofNat 64 g) (BitVec.ofNat 64 tb)).1
+      (NewUint64MapBuilder_Layout (BitVec.ofNat 64 g) (BitVec.ofNat 64 tb)).2 = true ∧
+    (NewUint64MapBuilder_Layout (BitVec.ofNat 64 g) (BitVec.ofNat 64 tb)).2 = BitVec.ofNat 64 tb := by
+  have hm : bucketBitsForCount n ≤ 62 := (bucket_bits_spec n).2.2 62 (by omega) hn
+  have hg63 : g ≤ 63 := by
+    unfold bucketBitsClose at hg
+    split at hg
+    · have : g = bucketBitsForCount n := by simpa using hg
+      omega
+    · simp only [Bool.and_eq_true, Bool.or_eq_true, decide_eq_true_eq, beq_iff_eq] at hg
+      omega
+  have htb : tb ≤ 63 := builder_tag_bits_ok (ty, tb) hty
+  have h := builder_layouts_ok (BitVec.ofNat 64 g) (BitVec.ofNat 64 tb)
+    (by show (BitVec.ofNat 64 g).toNat ≤ 63; simp; omega) (by show (BitVec.ofNat 64 tb).toNat ≤ 63; simp; omega)
+  exact ⟨h.2.2.2, h.1⟩
+
+example : bucketBitsForCount 2 = 1 ∧ bucketBitsForCount 3 = 2 ∧ bucketBitsForCount 1024 = 10 ∧
+    bucketBitsForCount 1025 = 11 ∧ bucketBitsForCount 0 = 1 := by decide
+
+/-- the tag-bit table of the generated source is the one the driver's model uses. -/
+theorem tag_bits_table_as_modelled :
+    ∀ e ∈ B6.Gen.Bits.tagBits, tagBitsOfType e.1 = some e.2 := by decide
+
 example : NewUint64MapBuilder_Layout 1#64 2#64 = (2#64, 2#64) := by decide
 
 /-- before the repair the builder used the requested layout, and `(1, 2)` — requested for every point block
@@ -219,9 +224,7 @@ theorem builder_layout_old_counterexample :
 /-- `ToXYZ(TileIDFromXYZ(x, y, z)) = (x, y, z)` for every zoom up to 29 and `x, y < 2^z`. -/
 theorem tile_id (x y z : BitVec 64) (hz : z ≤ 29#64) (hx : x < 1#64 <<< z) (hy : y < 1#64 <<< z) :
     TileID_ToXYZ (TileIDFromXYZ x y z) = (x, y, z) := by
-  unfold TileID_ToXYZ TileIDFromXYZ
-  simp only [Prod.mk.injEq]
-  bv_decide (config := { timeout := 900 })
+  exact B6.Lemmas.Bits.tile_id x y z hz hx hy
 
 example : TileID_ToXYZ (TileIDFromXYZ 536870911#64 536870911#64 29#64) = (536870911#64, 536870911#64, 29#64) := by decide
 
@@ -234,8 +237,8 @@ theorem tile_id_zoom30_counterexample :
 /-- any two `int32` E7 coordinates read back (negative ones included). -/
 theorem latlng_id (lat lng : BitVec 32) :
     LatLngFromID_latE7 (NewLatLngID_id lat lng) = lat ∧ LatLngFromID_lngE7 (NewLatLngID_id lat lng) = lng := by
-  unfold LatLngFromID_latE7 LatLngFromID_lngE7 NewLatLngID_id
-  constructor <;> bv_decide
+  have h := B6.Lemmas.Bits.latlng_id lat lng
+  exact ⟨congrArg Prod.fst h, congrArg Prod.snd h⟩
 
 example : LatLngFromID_latE7 (NewLatLngID_id 0x80000000#32 0xffffffff#32) = 0x80000000#32 := by decide
 
@@ -255,7 +258,7 @@ example : PostcodeOK (normalizePostcode "sw1a 1aa".toList) := by unfold Postcode
 example : pointIDFromGBPostcode "sw1a 1aa".toList = some 7834097961514 := by decide
 example : postcodeFromPointID 7834097961514 = some "SW1A1AA".toList := by decide
 
-/-! ## UK ONS codes (hand model, kernel-only except the 64-bit field lemma) -/
+/-! ## UK ONS codes (hand model, kernel-only) -/
 
 /-- the domain: a letter byte (ASCII), eight decimal digits, 1900 ≤ year ≤ 2155. -/
 def ONSOK (c0 : Char) (ds : List Char) (year : Int) : Prop :=
